@@ -155,7 +155,7 @@ Section TraceSess.
     { intros F' [[X _]|[_ [->|Cn]]] Sz'; [subst k; rewrite X in Vk; inversion Vk|left; reflexivity|].
       right. split; [exact Cn|apply can_sizes_pwf; assumption]. }
     destruct v as [|x v].
-    - destruct (sess_delete_rep H H_len S ss F key ss' SI BK E) as (F' & d & evm & TR & Rp' & GR). fold k in GR.
+    - destruct (sess_delete_rep H H_len S ss F key ss' SI BK E) as (F' & d & evm & TR & Rp' & GR & _). fold k in GR.
       destruct (delete_spec (resolve_of H PathScheme S) (ops_fuel k) F [] k (ops_fuel_ok k) Wp)
         as (d0 & n0 & ev0 & DE0 & PO).
       destruct (GR (ops_fuel k) (ops_fuel_ok k)) as (ev' & DE' & NE). rewrite DE0 in DE'. inversion DE'; subst d0 n0 ev0.
@@ -167,7 +167,7 @@ Section TraceSess.
       exists F'. split; [|split; [exact L1|exact L2]].
       split; [split; [apply FIN; [apply CP; exact Cp|exact Sz']|exact Rp']|]. split; [exact Sz'|].
       rewrite TR. eapply ti_after; [apply gpos_dec|exact T|exact EC|exact NE].
-    - destruct (sess_insert_rep H H_len S ss F key x v ss' SI BK E) as (F' & d & evm & TR & Rp' & GR). fold k in GR.
+    - destruct (sess_insert_rep H H_len S ss F key x v ss' SI BK E) as (F' & d & evm & TR & Rp' & GR & _). fold k in GR.
       destruct (insert_spec (resolve_of H PathScheme S) (ops_fuel k) F [] k (x :: v) (ops_fuel_ok k) Wp)
         as (d0 & n0 & ev0 & DE0 & PO).
       destruct (GR (ops_fuel k) (ops_fuel_ok k)) as (ev' & DE' & NE). rewrite DE0 in DE'. inversion DE'; subst d0 n0 ev0.
@@ -215,59 +215,4 @@ Section TraceSess.
   Lemma ti_open start tr : tr_del tr = [] -> tr_ins tr = [] -> ti start start tr.
   Proof. intros D I q. rewrite D, I. cbn. split; split; try discriminate; tauto. Qed.
 
-  (* every reachable session: the store holds F0 (the trie at trie.New), the session
-     represents F, and the opTracer is exactly the difference of their node paths *)
-  Theorem reachable_sinv2 S ss : reachable H S ss ->
-    exists F0 F root0, store_ok H S root0 F0 /\ sinv2 S ss F0 F.
-  Proof.
-    induction 1 as [ss O|S ss r ons ss2 Rch IH C O|S ss key v ss' Rch IH OK U|S ss key v ss' Rch IH BK G|S ss path g ss' Rch IH G].
-    - destruct (open_sinv H H_len H_inj_empty [] _ NEmpty (store_ok_empty H)) as (ss0 & O0 & SI).
-      rewrite O in O0. inversion O0; subst ss0. exists NEmpty, NEmpty, (H empty_root_preimage).
-      split; [apply store_ok_empty|]. split; [exact SI|]. split.
-      + intros k v L. rewrite lk_empty in L. discriminate.
-      + destruct (open_tr _ _ _ O) as [D I]. apply ti_open; assumption.
-    - destruct IH as (F0 & F & root0 & _ & SI & Sz & _).
-      pose proof (commit_store_ok H H_len S ss F r ons SI C) as SO.
-      destruct (open_sinv H H_len H_inj_empty _ _ F SO) as (ss0 & O0 & SI0).
-      rewrite O in O0. inversion O0; subst ss0. exists F, F, r.
-      split; [exact SO|]. split; [exact SI0|]. split; [exact Sz|].
-      destruct (open_tr _ _ _ O) as [D I]. apply ti_open; assumption.
-    - destruct IH as (F0 & F & root0 & SO & S2).
-      destruct (sess_update_sinv2 S ss F0 F key v ss' S2 OK U) as (F' & S2' & _).
-      exists F0, F', root0. split; assumption.
-    - destruct IH as (F0 & F & root0 & SO & SI & Sz & T).
-      destruct (sess_get_sinv H H_len H_inj_empty S ss F key v ss' SI BK G) as [SI' _].
-      destruct (sess_get_tr S ss F key v ss' SI BK G) as [D I].
-      exists F0, F, root0. split; [exact SO|]. split; [exact SI'|]. split; [exact Sz|].
-      eapply ti_same_sets; eassumption.
-    - destruct IH as (F0 & F & root0 & SO & SI & Sz & T).
-      destruct (sess_getnode_tr S ss F path g ss' SI G) as [D I].
-      exists F0, F, root0. split; [exact SO|]. split; [eapply sess_getnode_sinv; eassumption|]. split; [exact Sz|].
-      eapply ti_same_sets; eassumption.
-  Qed.
-
-  (* C07 tracer_spec, unconditional *)
-  Theorem tracer_reachable S ss : reachable H S ss ->
-    exists F0 F root0, store_ok H S root0 F0 /\ sinv H S ss F /\
-      forall q,
-        (am_has q (tr_del (s_tr ss)) = true <-> gpos [] F0 q /\ ~ gpos [] F q) /\
-        (am_has q (tr_ins (s_tr ss)) = true <-> ~ gpos [] F0 q /\ gpos [] F q) /\
-        (In q (deleted_nodes (s_tr ss)) <->
-         gpos [] F0 q /\ ~ gpos [] F q /\ am_has q (tr_pv (s_tr ss)) = true).
-  Proof.
-    intro Rch. destruct (reachable_sinv2 S ss Rch) as (F0 & F & root0 & SO & SI & _ & T).
-    exists F0, F, root0. split; [exact SO|]. split; [exact SI|]. intro q.
-    destruct (T q) as [TD TI]. split; [exact TD|]. split; [exact TI|].
-    unfold deleted_nodes. split.
-    - intro I. apply in_map_iff in I. destruct I as ([q1 u] & <- & I). cbn [fst] in *.
-      apply filter_In in I. destruct I as [I Fp]. cbn [fst] in Fp.
-      assert (Hq : am_has q1 (tr_del (s_tr ss)) = true).
-      { destruct (am_in_get _ _ _ I) as [v' G]. unfold am_has. rewrite G. reflexivity. }
-      destruct (T q1) as [TD1 _]. apply TD1 in Hq. tauto.
-    - intros (P1 & P2 & P3).
-      assert (Hq : am_has q (tr_del (s_tr ss)) = true) by (apply TD; tauto).
-      apply am_has_true in Hq. destruct Hq as [[] G]. apply am_get_in in G.
-      apply in_map_iff. exists (q, tt). split; [reflexivity|].
-      apply filter_In. split; [exact G|exact P3].
-  Qed.
 End TraceSess.
